@@ -20,6 +20,8 @@ func init() {
 			ruleExhaustiveWalks(c, "R4d", []*ssa.Function{c.A.TreeClean, c.A.TreeRemove, c.A.TreeRoutes}, "the recount and Routes() walk every node")
 			ruleSummaryLockset(c, "R6")
 			ruleRoutesLiveness(c, "R7")
+			ruleReadersWriteNothing(c, "R9", "tree", "router")
+			ruleInternalKeyIsNotAMethod(c, "R10")
 		},
 	})
 	register(&Spec{
@@ -38,6 +40,8 @@ func init() {
 			ruleSummaryIsNotLiveness(c, "R4")
 			ruleSearchTriesEverySibling(c, "R5", []*ssa.Function{c.A.TreeAdd}, "a pattern identical up to parameter names to a live route is always rejected: the ambiguity search tries every sibling")
 			ruleAmbiguityNeedsAgreement(c, "R6")
+			ruleAmbiguitySearchSeesSplits(c, "R7")
+			ruleAmbiguitySearchDiscipline(c, "R8", "R9")
 		},
 	})
 	register(&Spec{
@@ -54,6 +58,7 @@ func init() {
 			ruleAutoEntries(c, "R6")
 			ruleAutoEntriesDeletedTogether(c, "R7")
 			ruleRecoveryWriterIsCurrent(c, "R8")
+			ruleHasTraceIsNonNil(c, "R9")
 		},
 	})
 }
